@@ -249,6 +249,7 @@ type c16Round struct {
 	WSync   int         // >0: (disk follower) when WSync payload bytes of the snapshot being received are on its file, the rest of the writer's output is lost and its fsync at the commit fails (a pipe dup2'ed over the descriptor: writes "succeed", Sync returns an error)
 	WRename bool        // (disk follower) the commit (rename) of the snapshot received in this session fails
 	Crash   int         // >0: (disk follower) before this session the follower process is killed: it restarts over the directory image frozen when Crash payload bytes of the PREVIOUS session's transfer had been written
+	FStop   int         // >0: the FOLLOWER's own Stop() (its syncer is stopped: role change, restart of the command) is called once that many CONTINUE messages of a transfer are out (a snapshot transfer: only while bytes are still to come); with Quiet after the follower has stored every sent byte
 }
 
 func (r c16Round) extras() string {
@@ -270,6 +271,9 @@ func (r c16Round) extras() string {
 	}
 	if r.Crash > 0 {
 		p = append(p, fmt.Sprintf("cr=%d", r.Crash))
+	}
+	if r.FStop > 0 {
+		p = append(p, fmt.Sprintf("fs=%d", r.FStop))
 	}
 	if len(p) == 0 {
 		return "-"
@@ -355,6 +359,8 @@ func c16ParseRound(rs string) (r c16Round, err error) {
 				r.WRename = n == 1
 			case "cr":
 				r.Crash = n
+			case "fs":
+				r.FStop = n
 			default:
 				return r, fmt.Errorf("bad round extras %q", q[7])
 			}
@@ -1040,6 +1046,13 @@ type c16FChan struct {
 	image   string // where the frozen image is
 	fired   bool  // a fault was injected AND a byte was handed to the writer afterwards
 	frozen  bool
+	writers int   // snapshot / stream writers the follower has created on this channel
+}
+
+func (c *c16FChan) writersMade() int {
+	c.mu.Lock()
+	defer c.mu.Unlock()
+	return c.writers
 }
 
 func (c *c16FChan) arm(wfault int, wrename bool, wsync int, freeze int, image string) {
@@ -1137,6 +1150,7 @@ func (f *c16FaultReader) Read(p []byte) (int, error) {
 func (c *c16FChan) NewRdbWriter(r io.Reader, off int64, size int64) (RdbChannelWriter, error) {
 	c.mu.Lock()
 	k, ren, fz, ws := c.wfault, c.wrename, c.freeze, c.wsync
+	c.writers++
 	c.mu.Unlock()
 	if k == 0 && !ren && fz == 0 && ws == 0 {
 		return c.Channel.NewRdbWriter(r, off, size)
@@ -1153,6 +1167,7 @@ func (c *c16FChan) NewRdbWriter(r io.Reader, off int64, size int64) (RdbChannelW
 func (c *c16FChan) NewAofWritter(r io.Reader, off int64) (AofChannelWriter, error) {
 	c.mu.Lock()
 	k, fz := c.wfault, c.freeze
+	c.writers++
 	c.mu.Unlock()
 	if k == 0 && fz == 0 {
 		return c.Channel.NewAofWritter(r, off)
@@ -1227,6 +1242,13 @@ type c16Sess struct {
 	halts    map[int]*c16Halt // per request from the stop on: what still got out
 	unquiet  bool // a quiescent cut could not be awaited within the limit
 	quiesced bool // the session was ended by a cut made after the follower had stored every sent byte
+	rdbLeft  int64  // bytes of the snapshot being sent that are still to come
+	fstopFn  func() // round.FStop: calls the follower's own Stop()
+	fstopped bool   // … it was called …
+	fstopAt  int    // … when that many messages were out
+	xfers    int    // data transfers announced in this session (META answers to data requests)
+	w0       int    // writers the follower's channel had created when the session began
+	unsynced bool   // round.FStop: the follower did not open the writer of the announced transfer within the limit
 }
 
 func (ss *c16Sess) hook(point int) {
@@ -1292,7 +1314,16 @@ func (w *c16Srv) push(m *pb.SyncResponse) error {
 		ss.aofOn = true
 		ss.aofStart, ss.aofBytes = m.GetOffset(), 0
 	}
-	stopNow, relabelNow := false, false
+	if m.GetCode() == pb.SyncResponse_META && !m.GetMeta().GetAof() && m.GetMeta().GetRunId() == "" {
+		ss.rdbLeft = m.GetSize()
+	}
+	if m.GetCode() == pb.SyncResponse_META && m.GetMeta().GetRunId() == "" && ss.sentRPC == 1 {
+		ss.xfers++
+	}
+	if !ss.aofOn && m.GetCode() == pb.SyncResponse_CONTINUE {
+		ss.rdbLeft -= m.GetSize()
+	}
+	stopNow, relabelNow, fstopNow := false, false, false
 	switch m.GetCode() {
 	case pb.SyncResponse_CONTINUE:
 		ss.contRPC++
@@ -1302,6 +1333,10 @@ func (w *c16Srv) push(m *pb.SyncResponse) error {
 		if ss.round.Relabel > 0 && !ss.stopped && ss.aofOn && ss.contRPC == ss.round.Relabel {
 			ss.stopped, ss.stopRPC, relabelNow, ss.relabel = true, ss.rpc, true, true
 			ss.readsAt, ss.relOff = len(ss.reads[ss.rpc]), ss.aofStart
+		}
+		if ss.round.FStop > 0 && !ss.fstopped && ss.fstopFn != nil && ss.contRPC == ss.round.FStop && (ss.aofOn || ss.rdbLeft > 0) {
+			// the follower's own syncer is stopped now: nothing more is delivered
+			ss.fstopped, ss.fstopAt, fstopNow, ss.cutOn = true, len(ss.sent), true, true
 		}
 	case pb.SyncResponse_FAULT:
 		ss.faultRPC = true
@@ -1323,6 +1358,24 @@ func (w *c16Srv) push(m *pb.SyncResponse) error {
 	if stopNow {
 		// the leader steps down / is stopped: runLeader closes the wait every handler runs under
 		ss.rt.sy.wait.Close(nil)
+	}
+	if fstopNow {
+		// the follower has read the announcement of this transfer and opened its writer (explicit
+		// condition: from here on, what it has not read yet is lost like bytes in its pipe); with Quiet
+		// it has stored every sent byte
+		if fc, ok := ss.fch.(*c16FChan); ok {
+			ss.mu.Lock()
+			want := ss.w0 + ss.xfers
+			ss.mu.Unlock()
+			if !c16Wait(func() bool { return fc.writersMade() >= want }, c16Patience) {
+				ss.mu.Lock()
+				ss.unsynced = true
+				ss.mu.Unlock()
+			}
+		}
+		ss.quiesce()
+		ss.fstopFn()
+		return nil
 	}
 	if relabelNow {
 		// the source failed over (+CONTINUE <new id> on the input's reconnect) while this handler's
@@ -1915,12 +1968,33 @@ func (x *c16Ctx) runCase(t *testing.T, srv *c16Server, c c16Case, src string) (u
 			t.Logf("c16: cannot build leader %s: %v", r.lsString(), err)
 			return
 		}
+		ss.mu.Lock()
+		ss.w0 = fw.writersMade()
+		ss.mu.Unlock()
 		if fol == nil {
 			fol = c16StartFollower(fw, srv.addr) // the real Run, from state 1
 		} else {
 			fol.w.resume <- struct{}{} // Run goes on after its pause
 		}
+		if r.FStop > 0 {
+			f := fol
+			ss.mu.Lock()
+			ss.fstopFn = func() { go f.rf.Stop() } // ReplicaFollower.Stop: wait closed, connection closed, waits for Run
+			ss.mu.Unlock()
+		}
 		ended, runErr, ok := fol.await()
+		ss.mu.Lock()
+		fstopped := ss.fstopped
+		ss.mu.Unlock()
+		if fstopped && ok && !ended {
+			// Run was on its way into a pause when its wait was closed: it returns at once
+			select {
+			case runErr = <-fol.done:
+				ended = true
+			case <-time.After(c16Patience):
+				ok = false
+			}
+		}
 		if c.Bk == "d" && (r.WFault > 0 || r.WRename || r.WSync > 0) {
 			// the follower's store failed in the middle of a transfer and its Run has given up: let the
 			// leader's handler finish what it was sending (the transport is not cut in these rounds), so
@@ -1942,10 +2016,32 @@ func (x *c16Ctx) runCase(t *testing.T, srv *c16Server, c c16Case, src string) (u
 		if ss.complete {
 			res.cutModel = len(ss.sent)
 		}
+		if ss.fstopped {
+			// the follower stopped itself: for the model the session is cut after what was out by then
+			res.cutModel = ss.fstopAt
+			if ended && runErr == nil {
+				res.cls = "cut"
+			} else if ended {
+				res.cls = "other:stop:" + runErr.Error()
+			}
+			s.Count("follower_stopped_mid_transfer")
+			if ss.aofOn {
+				s.Count("follower_stopped_aof")
+			} else {
+				s.Count("follower_stopped_rdb")
+			}
+			if ss.quiesced {
+				s.Count("follower_stopped_quiescent")
+			}
+		}
 		aofOn, aofStart, aofBytes := ss.aofOn, ss.aofStart, ss.aofBytes
 		ss.mu.Unlock()
 		ss.stop()
 		res.msgs = ss.read()
+		if ss.unsynced {
+			s.Count("skip_fstop_not_synced")
+			return
+		}
 		if !ok || ss.rt.err != nil {
 			s.Count("skip_session_stuck")
 			t.Logf("c16: session did not end / leader transition failed (%v): %s", ss.rt.err, c.String())
@@ -2665,7 +2761,8 @@ func TestVerifC16(t *testing.T) {
 	for _, k := range []string{"rel_prefix", "rel_equal", "rel_ahead", "rel_collected", "rel_collected-snap", "rel_far-behind", "rel_otherid-within",
 		"rel_leader-empty", "dynamic_leader", "end_meta_takeover", "end_meta_error", "end_rdb_cut", "end_aof_cut", "end_aof_eof", "end_rdb_eof",
 		"msg_CLEAR", "msg_FAILURE", "msg_FAULT", "ahead_answered_clear", "big_transfer", "leader_relabelled_mid_transfer",
-		"store_fault_rdb", "store_fault_aof", "store_fault_rename", "crash_restart", "reopen_with_tmp_snapshot", "end_rdb_wfail", "end_aof_wfail"} {
+		"store_fault_rdb", "store_fault_aof", "store_fault_rename", "crash_restart", "reopen_with_tmp_snapshot", "end_rdb_wfail", "end_aof_wfail",
+		"follower_stopped_aof", "follower_stopped_rdb", "follower_stopped_quiescent"} {
 		if s.Stats[k] == 0 {
 			s.Count("class_not_generated_" + k)
 			s.Stats["class_not_generated_"+k] = 1
@@ -2728,6 +2825,25 @@ func (x *c16Ctx) family(t *testing.T, srv *c16Server, c c16Case, r *vfutil.Rand,
 			cc.Rounds = append(cc.Rounds, c16Round{Ls: []c16Leader{c16Evolve(r, r0.Ls[0])}, Cut: -1, Quiet: true})
 		}
 		x.runCase(t, srv, cc, "stop")
+	}
+	// the FOLLOWER's own Stop() in the middle of a transfer (runFollower's `<-sy.wait.Done(); follower.Stop()`:
+	// the wait is closed, the connection closed, Stop waits for Run): Run returns nil, what was stored stays,
+	// an incomplete snapshot is dropped; then a new process life / a new Run goes on
+	for i := 0; i < 2; i++ {
+		cc := c
+		r0 := c.Rounds[0]
+		r0.Cut, r0.Quiet = -1, r.Bool()
+		r0.FStop = 1 + r.Intn(4)
+		r0.Split = vfutil.Pick(r, []int{0, 2, 7, 40})
+		cc.Rounds = []c16Round{r0}
+		if r.Chance(1, 2) && c.Bk == "d" { // (a memory cache does not outlive its syncer)
+			l2 := r0.Ls[0]
+			if r.Bool() {
+				l2 = c16Evolve(r, r0.Ls[0])
+			}
+			cc.Rounds = append(cc.Rounds, c16Round{Ls: []c16Leader{l2}, Cut: -1, Quiet: true, Restart: true})
+		}
+		x.runCase(t, srv, cc, "fstop")
 	}
 	// the follower's own store fails: a file write (anywhere in the first transfer, often inside the
 	// last 8 KiB of a snapshot), the commit of a snapshot; and the follower process is killed in
